@@ -143,6 +143,9 @@ def _is_harness(fn, fl):
 def classify_crash(text):
     """cause record of a crashed child from its output."""
     m = re.search(r"^(panic: .*|fatal error: .*)$", text, re.M)
+    if not m and "race detected during execution of test" in text:
+        # the testing package ends the test function when a bubble saw a race; the report itself is in race.<pid>
+        return {"kind": "race_abort", "where": "testing"}, "test function ended by the race detector (see race reports)"
     head = m.group(1) if m else "unknown crash"
     kind = "panic"
     if "blocked goroutines remain" in head or "deadlock: main bubble goroutine" in head:
@@ -262,7 +265,7 @@ def parse_races(text):
             for i, l in enumerate(lines):
                 l = l.strip()
                 if l.startswith("github.com/") or l.startswith("runtime.") or re.match(r"^[\w./\-]+\.[\w.()*\[\]]+\(", l):
-                    fn = l.split("(")[0]
+                    fn = l[:l.rfind("(")] if "(" in l else l
                     fl = lines[i + 1].strip() if i + 1 < len(lines) else ""
                     fr.append((fn, fl))
             frames.append(fr)
@@ -399,7 +402,7 @@ def do_check(prop, cfg, tier, seed, workdir, ov, t0, mutant, only_mon):
             for cr in sh["crashes"]:
                 if cr["cause"].get("kind") == "harness":
                     broken.append("%s case %s: harness crash: %s (%s)" % (m["name"], cr["case"], cr["head"], cr["out"]))
-                if cr["cause"].get("kind") in ("watchdog", "harness"):
+                if cr["cause"].get("kind") in ("watchdog", "harness", "race_abort"):
                     continue
                 ms["crashes"] += 1
                 ms["evaluations"] += 1
